@@ -394,6 +394,57 @@ def run_step_confine(case):
 HANDLERS['step_confine'] = run_step_confine
 
 
+def run_step_condfail(case):
+    """one emulate_cycle of an instruction whose condition fails (the case says so); returns [0] when the step only advanced
+    the PC by the instruction length and the IT state, else [1, what differs]"""
+    import implrun
+    t = tables()
+    arm = build(case['state'])
+    before = dump(arm)
+    try:
+        with contextlib.redirect_stdout(io.StringIO()):
+            arm.emulate_cycle()
+    except NotImplementedError:
+        return [0]
+    except Exception as e:  # noqa
+        enc = implrun.exn_enc(e)
+        if enc[0] != 2:
+            return [0]          # host errors are C18's business
+        if enc[:2] == [2, 6]:
+            return [0]          # UNDEFINED words: the Undefined Instruction exception does not depend on the condition
+        return [1, 9] + enc[:3]
+    after = dump(arm)
+    sb, _ = statelib.decode_machine(before)
+    sa, _ = statelib.decode_machine(after)
+    names = t['sys_names']
+    icpsr = names.index('cpsr')
+    itmask = (0x3F << 10) | (3 << 25)
+    ipc0 = t['rnames'].index('PC')
+    if ((sa['sys'][icpsr] & 0x1F) == 0b11011 and sa['sys'][names.index('spsr_und')] == sb['sys'][icpsr]
+            and sa['R'][ipc0] != (sb['R'][ipc0] + case['length']) % 2 ** 32):
+        return [0]              # the Undefined Instruction exception was taken: UNDEFINED and UNPREDICTABLE words (whose
+                                # behaviour is open) may do so whatever the condition
+    if (sa['sys'][icpsr] & ~itmask) != (sb['sys'][icpsr] & ~itmask):
+        return [1, 1]
+    for i, nm in enumerate(names):
+        if i != icpsr and sa['sys'][i] != sb['sys'][i]:
+            return [1, 2, i]
+    if sa['sysl'] != sb['sysl']:
+        return [1, 3]
+    ipc = t['rnames'].index('PC')
+    for i in range(34):
+        if i != ipc and sa['R'][i] != sb['R'][i]:
+            return [1, 4, i]
+    if sa['R'][ipc] != (sb['R'][ipc] + case['length']) % 2 ** 32:
+        return [1, 5]
+    if sa['mem'] != sb['mem']:
+        return [1, 6]
+    return [0]
+
+
+HANDLERS['step_condfail'] = run_step_condfail
+
+
 def run_classify(case):
     """class codes of a batch of instruction words (ARM, or Thumb 32-bit) through the pure decoders; -1 for none/errors"""
     import importlib
